@@ -33,9 +33,11 @@ PlainKeys == {p \o n \o s : p \in Pres, n \in Names, s \in Sufs}
 OddKeys == {<<"a", ".jpg">>, <<".jpg", "a">>, <<"img/", "img/", ".jpg">>, <<"img/">>, <<"doc/", "a", ".jpg", ".txt">>}
 GenKey(z) == IF R(1..5) = 1 THEN R(OddKeys) ELSE R(PlainKeys)
 
-PrefixW == <<<<>>, <<>>, <<>>, <<"img/">>, <<"img/">>, <<"doc/">>, <<"img/", "a">>, <<".jpg">>, <<"a">>, <<"img/", "a", ".jpg">>>>
-SuffixW == <<<<>>, <<>>, <<>>, <<".jpg">>, <<".txt">>, <<".txt">>, <<"a", ".jpg">>, <<"img/">>, <<"img/", "a", ".jpg">>>>
-PatSetW == <<{Ev("ObjectCreated", "*")}, {Ev("ObjectCreated", "*")},
+PrefixW == <<<<>>, <<>>, <<>>, <<>>, <<>>, <<>>, <<"img/">>, <<"img/">>, <<"doc/">>, <<"img/", "a">>, <<".jpg">>, <<"a">>, <<"img/", "a", ".jpg">>>>
+SuffixW == <<<<>>, <<>>, <<>>, <<>>, <<>>, <<>>, <<".jpg">>, <<".txt">>, <<".txt">>, <<"a", ".jpg">>, <<"img/">>, <<"img/", "a", ".jpg">>>>
+AllPats == {Ev("ObjectCreated", "*"), Ev("ObjectRemoved", "*"), Ev("ObjectTagging", "*"),
+            Ev("LifecycleExpiration", "*"), Ev("LifecycleTransition", "")}
+PatSetW == <<AllPats, AllPats, AllPats, {Ev("ObjectCreated", "*")}, {Ev("ObjectCreated", "*")},
              {Ev("ObjectCreated", "Put"), Ev("ObjectCreated", "Copy")},
              {Ev("ObjectCreated", "CompleteMultipartUpload")},
              {Ev("ObjectRemoved", "*")}, {Ev("ObjectRemoved", "Delete")}, {Ev("ObjectRemoved", "DeleteMarkerCreated")},
@@ -51,7 +53,7 @@ GenRule(id) == [id |-> id, dtype |-> R({"Queue", "Topic", "Fn"}), events |-> RW(
 GenRules(z) == LET n == RW(<<1, 2, 2, 3, 3>>) IN {GenRule(id) : id \in {<<"r1", "r2", "r3">>[i] : i \in 1..n}}
 BackoffW == <<<<1, 4>>, <<1, 4>>, <<1, 2>>, <<2, 8>>, <<2, 1>>, <<1, 1>>, <<3, 5>>>>
 GenCfg(z, b) ==
-  [rules |-> GenRules(z), eb |-> (R(1..4) = 1), versioned |-> (R(1..3) = 1),
+  [rules |-> GenRules(z), eb |-> (R(1..3) = 1), versioned |-> (R(1..3) = 1),
    maxAttempts |-> RW(<<0, 1, 2, 2, 3, 3>>), minB |-> b[1], maxB |-> b[2], lease |-> R(1..3),
    stack |-> RW(<<"sql", "sql", "fs">>)]
 OutcomeW == <<"ok", "ok", "fail", "fail", "fail", "fail", "crashD", "crashN">>
